@@ -187,7 +187,8 @@ def run_case(ctx, P, stream, idx):
             with open(os.path.join(d, out_name), "w") as f:
                 f.write(sentinel)
         snap0 = fsnap.snapshot(d)
-        env = dict(os.environ, PYTHONPATH=REPO, PYTHONDONTWRITEBYTECODE="1")
+        # (the command runs under its own string-hash seed, as a user's invocation does; the harness under 0)
+        env = dict(os.environ, PYTHONPATH=REPO, PYTHONDONTWRITEBYTECODE="1", PYTHONHASHSEED=str(1 + (idx * 31) % 9973))
         pr = subprocess.run(argv, cwd=d, env=env, stdout=subprocess.PIPE, stderr=subprocess.PIPE, timeout=300)
         P.monitor("gen.run")
         diff = fsnap.diff(snap0, fsnap.snapshot(d))
